@@ -3,3 +3,5 @@ from . import loops  # noqa: F401
 from . import keysrules  # noqa: F401
 from . import panics  # noqa: F401
 from . import decoder  # noqa: F401
+from . import pipeline  # noqa: F401
+from . import macros  # noqa: F401
